@@ -10,6 +10,7 @@ import (
 	"io"
 	"os"
 	realexec "os/exec"
+	"syscall"
 	"time"
 
 	"grog/internal/zzsim/simrt"
@@ -51,6 +52,8 @@ type Cmd struct {
 	Stderr    io.Writer
 	WaitDelay time.Duration
 	Cancel    func() error
+	// Process mirrors exec.Cmd.Process (set by Start): Kill and Signal only.
+	Process *Process
 
 	ctx     context.Context
 	started bool
@@ -58,10 +61,46 @@ type Cmd struct {
 	real    *realexec.Cmd
 }
 
+// Process mirrors the part of os.Process that callers of exec.Cmd use.
+type Process struct {
+	Pid  int
+	kill func()
+	term func()
+	real *os.Process
+}
+
+// Kill mirrors (*os.Process).Kill: the command dies at once.
+func (p *Process) Kill() error {
+	if p.real != nil {
+		return p.real.Kill()
+	}
+	p.kill()
+	return nil
+}
+
+// Signal mirrors (*os.Process).Signal: SIGKILL kills; SIGTERM / SIGINT / SIGHUP terminate the
+// command unless it traps them (Invocation.TrapTerm); other signals are ignored.
+func (p *Process) Signal(sig os.Signal) error {
+	if p.real != nil {
+		return p.real.Signal(sig)
+	}
+	switch sig {
+	case os.Kill:
+		p.kill()
+	case os.Interrupt, syscall.SIGTERM, syscall.SIGHUP, syscall.SIGQUIT:
+		p.term()
+	}
+	return nil
+}
+
 // Invocation is what the handler sees.
 type Invocation struct {
 	Cmd *Cmd
 	Ctx context.Context // cancelled when the command is killed
+	// TrapTerm: set by the handler for a command that traps SIGTERM/SIGINT and carries on
+	// (only SIGKILL stops it); Termed reports that such a signal was received.
+	TrapTerm bool
+	Termed   bool
 	// StartStep is the scheduler step at which the command was started (fork time).
 	StartStep int
 	// StartSim is the simulated time since the run began at which the command was started.
@@ -130,8 +169,15 @@ func (c *Cmd) Start() error {
 			c.real = realexec.Command(c.Path, c.Args[1:]...)
 		}
 		c.real.Env, c.real.Dir, c.real.Stdin, c.real.Stdout, c.real.Stderr, c.real.WaitDelay = c.Env, c.Dir, c.Stdin, c.Stdout, c.Stderr, c.WaitDelay
+		if c.Cancel != nil {
+			c.real.Cancel = c.Cancel
+		}
 		c.started = true
-		return c.real.Start()
+		err := c.real.Start()
+		if c.real.Process != nil {
+			c.Process = &Process{Pid: c.real.Process.Pid, real: c.real.Process}
+		}
+		return err
 	}
 	simrt.Yield("simexec:start")
 	if c.started {
@@ -155,6 +201,14 @@ func (c *Cmd) Start() error {
 	c.done = make(chan error, 1)
 	killCtx, kill := context.WithCancel(context.Background())
 	inv := &Invocation{Cmd: c, Ctx: killCtx}
+	c.Process = &Process{Pid: 1, kill: kill, term: func() {
+		if inv.TrapTerm {
+			inv.Termed = true
+			simrt.Probe("sigterm-trapped-by-command")
+			return
+		}
+		kill()
+	}}
 	if s := simrt.S; s != nil {
 		inv.StartStep = s.Steps()
 		inv.StartSim = s.SimElapsed()
@@ -199,7 +253,29 @@ func (c *Cmd) Start() error {
 			c.done <- err
 		case 1:
 			simrt.Probe("command-killed-by-context")
-			kill()
+			// os/exec: call Cancel (default: kill the process); if the process has not
+			// exited WaitDelay later, kill it
+			if c.Cancel != nil {
+				c.Cancel()
+			} else {
+				kill()
+			}
+			if killCtx.Err() == nil && c.WaitDelay > 0 {
+				sl2 := simrt.NewSelect("simexec:waitdelay")
+				simrt.SelRecv(sl2, result)
+				simrt.SelRecv(sl2, time.After(c.WaitDelay))
+				if sl2.Wait() == 0 {
+					err, _ := simrt.RecvAs(sl2, 0, (<-chan error)(result))
+					if err == nil {
+						c.done <- nil
+						return
+					}
+					c.done <- c.ctx.Err()
+					return
+				}
+				simrt.Probe("command-killed-after-wait-delay")
+				kill()
+			}
 			err := simrt.Recv((<-chan error)(result), "simexec:reap")
 			if err == nil {
 				// finished on its own just before the kill took effect
